@@ -213,6 +213,15 @@ pub struct NetCase {
     /// in nothing but the port, one of them the other scheme's default
     #[serde(default)]
     pub same_host: bool,
+    /// every server of the case is a TLS listener (`Server::with_tls`, fixture certificate) and the
+    /// client carries a TLS configuration; the servers are addressed as `https://` origins whose names
+    /// the certificate covers. No ALPN: the protocol is chosen as without TLS.
+    #[serde(default)]
+    pub tls: bool,
+    /// servers without a scheduled signal are still built `with_graceful_shutdown`, with a signal that
+    /// never resolves (the usual production set-up): the graceful accept loop instead of the plain one
+    #[serde(default)]
+    pub graceful_never: bool,
     pub pool: Option<NetPool>,
     pub connect_delay: u8,
     pub latency: u8,
@@ -221,12 +230,31 @@ pub struct NetCase {
 }
 
 /// Authority under which server `srv` is addressed.
-pub fn authority_of(same_host: bool, srv: usize) -> String {
-    if same_host {
-        ["o.test", "o.test:443", "o.test:8080"][srv % 3].to_string()
-    } else {
-        format!("s{srv}.test")
+pub fn authority_of(tls: bool, same_host: bool, srv: usize) -> String {
+    match (tls, same_host) {
+        (false, true) => ["o.test", "o.test:443", "o.test:8080"][srv % 3].to_string(),
+        (false, false) => format!("s{srv}.test"),
+        // names covered by the fixture certificate
+        (true, true) => ["sub.wild.test", "sub.wild.test:80", "sub.wild.test:8080"][srv % 3].to_string(),
+        (true, false) => TLS_NAMES[srv % 3].to_string(),
     }
+}
+
+pub const TLS_NAMES: [&str; 3] = ["example.com", "a.test", "localhost"];
+
+pub fn scheme_of(tls: bool) -> &'static str {
+    if tls {
+        "https"
+    } else {
+        "http"
+    }
+}
+
+thread_local! {
+    static TLS_CONFIGS: (Arc<rustls::ServerConfig>, rustls::ClientConfig) = {
+        crate::engines::tlswire::install_provider();
+        (Arc::new(crate::engines::tlswire::server_config(0, 0, Default::default())), crate::engines::tlswire::client_config(0))
+    };
 }
 
 pub const METHODS: &[&str] = &["GET", "POST", "PUT", "DELETE", "PATCH", "QUERY"];
@@ -496,6 +524,15 @@ impl tower::Service<http::request::Parts> for RouteTransport {
                 8080 => Some(2),
                 _ => None,
             }
+        } else if host == "sub.wild.test" {
+            match req.uri.port_u16().unwrap_or(443) {
+                443 => Some(0),
+                80 => Some(1),
+                8080 => Some(2),
+                _ => None,
+            }
+        } else if let Some(i) = TLS_NAMES.iter().position(|n| *n == host) {
+            Some(i)
         } else {
             host.strip_prefix('s').and_then(|r| r.strip_suffix(".test")).and_then(|n| n.parse::<usize>().ok())
         };
@@ -542,6 +579,8 @@ pub struct Obs {
     /// per server: (connection id, accept ms)
     pub accepted: Vec<Vec<(usize, u64)>>,
     pub client: BTreeMap<usize, (ClientOutcome, u64)>,
+    /// virtual ms at which the request future resolved (response head or error), per request
+    pub resolved_at: BTreeMap<usize, u64>,
     pub server_done: Vec<Option<(Result<(), String>, u64)>>,
     pub conn_spawned: Vec<usize>,
     pub conn_finished: Vec<usize>,
@@ -598,6 +637,7 @@ struct SrvCtx {
     /// per request: where it is redirected to (see `redirect_target`)
     redirects: Vec<Option<usize>>,
     same_host: bool,
+    tls: bool,
 }
 
 async fn handle(ctx: Arc<SrvCtx>, conn: usize, req: http::Request<hyperdriver::Body>) -> Result<http::Response<ChunkBody>, BoxError> {
@@ -640,7 +680,7 @@ async fn handle(ctx: Arc<SrvCtx>, conn: usize, req: http::Request<hyperdriver::B
         problems.push(format!("query {:?} != {want_query:?}", parts.uri.query()));
     }
     // the request names the origin it was sent to: Host header on HTTP/1, :authority on HTTP/2
-    let want_host = authority_of(ctx.same_host, ctx.server);
+    let want_host = authority_of(ctx.tls, ctx.same_host, ctx.server);
     if parts.version == http::Version::HTTP_2 {
         if parts.uri.authority().map(|a| a.as_str()) != Some(want_host.as_str()) {
             problems.push(format!("HTTP/2 authority {:?} != {want_host}", parts.uri.authority()));
@@ -702,8 +742,8 @@ async fn handle(ctx: Arc<SrvCtx>, conn: usize, req: http::Request<hyperdriver::B
     if let (Some(to), false) = (redirect_to, second_hop) {
         let (p, q) = target_of(id, spec.target);
         let location = match q {
-            Some(q) => format!("http://{}{p}?{q}&hop=1", authority_of(ctx.same_host, to)),
-            None => format!("http://{}{p}?hop=1", authority_of(ctx.same_host, to)),
+            Some(q) => format!("{}://{}{p}?{q}&hop=1", scheme_of(ctx.tls), authority_of(ctx.tls, ctx.same_host, to)),
+            None => format!("{}://{}{p}?hop=1", scheme_of(ctx.tls), authority_of(ctx.tls, ctx.same_host, to)),
         };
         return Ok(http::Response::builder().status(303).header(http::header::LOCATION, location).header("x-conn", conn).body(ChunkBody::default()).unwrap());
     }
@@ -791,7 +831,7 @@ async fn upgraded_client_half<IO: AsyncRead + AsyncWrite + Unpin>(mut io: IO, id
 }
 
 macro_rules! start_server {
-    ($builder:expr, $ctx:expr, $obs:expr, $server:expr, $shutdown:expr, $on_accept:expr, $hold:expr) => {{
+    ($builder:expr, $ctx:expr, $obs:expr, $server:expr, $shutdown:expr, $on_accept:expr, $hold:expr, $never:expr) => {{
         let ctx: Arc<SrvCtx> = $ctx;
         let obs: O = $obs;
         let server: usize = $server;
@@ -838,6 +878,7 @@ macro_rules! start_server {
                     }
                 })),
                 (Some(ms), None) => finish!(srv.with_graceful_shutdown(async move { tokio::time::sleep(Duration::from_millis(ms)).await })),
+                (None, _) if $never => finish!(srv.with_graceful_shutdown(std::future::pending::<()>())),
                 (None, _) => finish!(srv),
             }
         })
@@ -867,14 +908,25 @@ fn build_client(case: &NetCase, routes: Arc<Vec<DuplexClient>>, dials: Arc<Atomi
         cfg
     });
     let timeout = case.timeout_ms.map(|t| Duration::from_millis(t as u64));
+    let tls_cfg = case.tls.then(|| TLS_CONFIGS.with(|c| c.1.clone()));
+    // the TLS setting is one more setting that must survive the calls that rebuild the builder
+    macro_rules! secured {
+        ($b:expr) => {{
+            let b = $b;
+            match tls_cfg.clone() {
+                Some(cfg) => b.with_tls(cfg),
+                None => b,
+            }
+        }};
+    }
     if case.reqs.iter().any(|r| redirect_target(case, r).is_some()) {
         // the default client follows redirects (tower-http's standard policy)
-        let b = hyperdriver::Client::builder()
+        let b = secured!(hyperdriver::Client::builder()
             .with_body::<ChunkBody, hyperdriver::Body>()
             .with_transport(transport)
             .with_auto_http()
             .with_standard_redirect_policy()
-            .with_optional_timeout(timeout);
+            .with_optional_timeout(timeout));
         let b = match pool_cfg {
             Some(cfg) => b.with_pool(cfg),
             None => b.without_pool(),
@@ -882,7 +934,7 @@ fn build_client(case: &NetCase, routes: Arc<Vec<DuplexClient>>, dials: Arc<Atomi
         return b.build_service();
     }
     if case.builder_order % 2 == 1 {
-        let b = hyperdriver::Client::builder().with_optional_timeout(timeout);
+        let b = secured!(hyperdriver::Client::builder()).with_optional_timeout(timeout);
         let b = match pool_cfg {
             Some(cfg) => b.with_pool(cfg),
             None => b.without_pool(),
@@ -895,12 +947,12 @@ fn build_client(case: &NetCase, routes: Arc<Vec<DuplexClient>>, dials: Arc<Atomi
             .layer(tower::layer::util::Identity::new())
             .build_service();
     }
-    let b = hyperdriver::Client::builder()
+    let b = secured!(hyperdriver::Client::builder()
         .with_body::<ChunkBody, hyperdriver::Body>()
         .with_transport(transport)
         .with_auto_http()
         .without_redirects()
-        .with_optional_timeout(timeout);
+        .with_optional_timeout(timeout));
     let b = match pool_cfg {
         Some(cfg) => b.with_pool(cfg),
         None => b.without_pool(),
@@ -925,13 +977,18 @@ pub fn effective_buf(case: &NetCase) -> usize {
     let b = case.buf.max(1) as usize;
     if any_h2 {
         let hdr = |id: usize, spec: &ReqSpec, dir: u8| 160 + extra_headers(id, spec.hdrs, dir).iter().map(|(n, v)| n.len() + v.len() + 8).sum::<usize>();
-        let (mut up, mut down) = (256usize, 256usize);
+        // TLS: handshake flights (certificate chain downwards) and 22 bytes of framing per record
+        let (mut up, mut down) = if case.tls { (256usize + 1024, 256usize + 4096) } else { (256usize, 256usize) };
         for (id, r) in case.reqs.iter().enumerate().filter(|(_, r)| request_version(case, r) == http::Version::HTTP_2) {
             let hops = if redirect_target(case, r).is_some() { 2 } else { 1 };
-            up += hops * (hdr(id, r, 0) + 64) + r.body_len as usize + 9 * (r.body_chunks as usize + 1);
-            down += hops * (hdr(id, r, 1) + 64) + r.resp_len as usize + 9 * (r.resp_chunks as usize + 1);
+            let rec = if case.tls { 32 } else { 0 };
+            up += hops * (hdr(id, r, 0) + 64 + 2 * rec) + r.body_len as usize + (9 + rec) * (r.body_chunks as usize + 2);
+            down += hops * (hdr(id, r, 1) + 64 + 2 * rec) + r.resp_len as usize + (9 + rec) * (r.resp_chunks as usize + 2);
         }
         b.max(128).max(up.min(down))
+    } else if case.tls {
+        // below a TLS record header the TLS stack itself stalls (iomodel's TLS pair leg)
+        b.max(64)
     } else {
         b
     }
@@ -961,8 +1018,8 @@ fn build_request(case: &NetCase, id: usize, spec: &ReqSpec) -> http::Request<Chu
             .method(METHODS[spec.method as usize % METHODS.len()])
             .version(http::Version::HTTP_11)
             .uri(match q {
-                Some(q) => format!("http://{}{p}?{q}", authority_of(case.same_host, srv)),
-                None => format!("http://{}{p}", authority_of(case.same_host, srv)),
+                Some(q) => format!("{}://{}{p}?{q}", scheme_of(case.tls), authority_of(case.tls, case.same_host, srv)),
+                None => format!("{}://{}{p}", scheme_of(case.tls), authority_of(case.tls, case.same_host, srv)),
             })
             .header("x-id", id)
             .header("x-keep", format!("v{id}"))
@@ -983,8 +1040,8 @@ fn build_request(case: &NetCase, id: usize, spec: &ReqSpec) -> http::Request<Chu
         .uri({
             let (p, q) = target_of(id, spec.target);
             match q {
-                Some(q) => format!("http://{}{p}?{q}", authority_of(case.same_host, srv)),
-                None => format!("http://{}{p}", authority_of(case.same_host, srv)),
+                Some(q) => format!("{}://{}{p}?{q}", scheme_of(case.tls), authority_of(case.tls, case.same_host, srv)),
+                None => format!("{}://{}{p}", scheme_of(case.tls), authority_of(case.tls, case.same_host, srv)),
             }
         })
         .header("x-id", id)
@@ -1002,8 +1059,13 @@ fn build_request(case: &NetCase, id: usize, spec: &ReqSpec) -> http::Request<Chu
         .unwrap()
 }
 
-async fn run_request(svc: ClientSvc, req: http::Request<ChunkBody>, id: usize, resp_len: usize, hdrs: u8, upgrade: Option<ReqSpec>) -> ClientOutcome {
-    match svc.oneshot(req).await {
+async fn run_request(svc: ClientSvc, req: http::Request<ChunkBody>, id: usize, resp_len: usize, hdrs: u8, upgrade: Option<ReqSpec>, obs: O) -> ClientOutcome {
+    let first = svc.oneshot(req).await;
+    {
+        let now = obs.lock().unwrap().now();
+        obs.lock().unwrap().resolved_at.insert(id, now);
+    }
+    match first {
         Err(e) => ClientOutcome::Err(format!("{e}")),
         Ok(resp) if upgrade.is_some() && resp.status() == http::StatusCode::SWITCHING_PROTOCOLS => {
             let spec = upgrade.unwrap();
@@ -1036,7 +1098,7 @@ async fn run_request(svc: ClientSvc, req: http::Request<ChunkBody>, id: usize, r
 async fn run_fault(client: DuplexClient, f: FaultSpec, obs: O) {
     use tokio::io::{AsyncReadExt, AsyncWriteExt};
     let log = |s: String| obs.lock().unwrap().fault_log.push(s);
-    match f.kind % 9 {
+    match f.kind % 10 {
         0 => {
             // cancelled connect: the request is queued, the connecting future dropped before the ack
             let fut = client.connect(1024);
@@ -1097,6 +1159,22 @@ async fn run_fault(client: DuplexClient, f: FaultSpec, obs: O) {
                 log(format!("connect with a {size}-byte pipe was refused"));
             }
         }
+        9 => {
+            // a crowd: many clients connect in the same instant and hang up at once
+            let n = f.arg as usize % 64 + 2;
+            let mut set = tokio::task::JoinSet::new();
+            for _ in 0..n {
+                let client = client.clone();
+                set.spawn(async move { client.connect(1024).await.is_ok() });
+            }
+            let mut ok = 0;
+            while let Some(r) = set.join_next().await {
+                if matches!(r, Ok(true)) {
+                    ok += 1;
+                }
+            }
+            log(format!("crowd of {n} clients connected ({ok} accepted) and hung up"));
+        }
         _ => {
             // well-behaved but idle: connects, sends a strict prefix of the h2 preface (possibly
             // nothing) and keeps the connection open until the server closes it
@@ -1146,14 +1224,15 @@ pub fn run_net_case(case: &NetCase) -> Result<Obs, String> {
             for s in 0..nsrv {
                 let (client, incoming) = hyperdriver::stream::duplex::pair();
                 routes.push(client);
-                let ctx = Arc::new(SrvCtx { obs: obs.clone(), server: s, reqs: case.reqs.clone(), upgrades: case.reqs.iter().map(|r| is_upgrade(&case, r)).collect(), redirects: case.reqs.iter().map(|r| redirect_target(&case, r)).collect(), same_host: case.same_host });
+                let ctx = Arc::new(SrvCtx { obs: obs.clone(), server: s, reqs: case.reqs.clone(), upgrades: case.reqs.iter().map(|r| is_upgrade(&case, r)).collect(), redirects: case.reqs.iter().map(|r| redirect_target(&case, r)).collect(), same_host: case.same_host, tls: case.tls });
                 let shutdown = case.shutdown.filter(|(srv, _)| *srv as usize % nsrv == s).map(|(_, ms)| ms as u64);
                 let on_acc = shutdown.and(case.shutdown_on_accept).map(|k| k as usize);
                 let base = hyperdriver::Server::builder::<hyperdriver::Body>().with_incoming(incoming);
+                let base = if case.tls { base.with_tls(TLS_CONFIGS.with(|c| c.0.clone())) } else { base };
                 let h = match case.servers[s] % 3 {
-                    0 => start_server!(base.with_http1(), ctx, obs.clone(), s, shutdown, on_acc, case.hold_server_future),
-                    1 => start_server!(base.with_http2(), ctx, obs.clone(), s, shutdown, on_acc, case.hold_server_future),
-                    _ => start_server!(base.with_auto_http(), ctx, obs.clone(), s, shutdown, on_acc, case.hold_server_future),
+                    0 => start_server!(base.with_http1(), ctx, obs.clone(), s, shutdown, on_acc, case.hold_server_future, case.graceful_never),
+                    1 => start_server!(base.with_http2(), ctx, obs.clone(), s, shutdown, on_acc, case.hold_server_future, case.graceful_never),
+                    _ => start_server!(base.with_auto_http(), ctx, obs.clone(), s, shutdown, on_acc, case.hold_server_future, case.graceful_never),
                 };
                 servers.push(h);
             }
@@ -1171,7 +1250,7 @@ pub fn run_net_case(case: &NetCase) -> Result<Obs, String> {
                     tokio::time::sleep(Duration::from_millis(spec.start as u64)).await;
                     let req = build_request(&case2, id, &spec);
                     let up = if is_upgrade(&case2, &spec) { Some(spec.clone()) } else { None };
-                    let fut = run_request(svc, req, id, spec.resp_len as usize, spec.hdrs, up);
+                    let fut = run_request(svc, req, id, spec.resp_len as usize, spec.hdrs, up, obs.clone());
                     let outcome = match spec.cancel_at {
                         Some(c) => {
                             let d = (c as u64).saturating_sub(spec.start as u64);
@@ -1215,7 +1294,7 @@ pub fn run_net_case(case: &NetCase) -> Result<Obs, String> {
                 let req = http::Request::builder()
                     .method("GET")
                     .version(version)
-                    .uri(format!("http://{}/probe", authority_of(case.same_host, s)))
+                    .uri(format!("{}://{}/probe", scheme_of(case.tls), authority_of(case.tls, case.same_host, s)))
                     .body(ChunkBody::default())
                     .unwrap();
                 let fut = async {
